@@ -94,6 +94,8 @@ def get(libs, t, name):
         return False
     if name == 'T':
         return ops.permute(t, list(range(t.ndim))[::-1])
+    if name == 'mT':
+        return ops.transpose(t, -2, -1)
     if name == 'data':
         return t
     if name == 'grad_fn':
@@ -114,7 +116,33 @@ def get(libs, t, name):
                 return t
             if base in ('add', 'sub', 'mul', 'div'):
                 opf = {'add': operator.iadd, 'sub': operator.isub, 'mul': operator.imul, 'div': operator.itruediv}[base]
-                return opf(t, a[0])
+                other = a[0]
+                if 'alpha' in k and k['alpha'] != 1:
+                    if base not in ('add', 'sub'):
+                        raise PyExc('TypeError', '%s() got an unexpected keyword argument alpha' % name)
+                    other = libs.binop(operator.mul, other, k['alpha'])
+                extra = set(k) - {'alpha'}
+                if extra or len(a) != 1:
+                    raise AnalysisError('unknown-primitive', 'Tensor.%s with arguments %s %s' % (name, len(a), sorted(k)))
+                return opf(t, other)
+            if base == 'copy':
+                src = a[0]
+                if not isinstance(src, DataT):
+                    raise AnalysisError('unknown-primitive', 'Tensor.copy_ from %s' % type(src).__name__)
+                r = src.broadcast_to_dims(t.dims)
+                t.cells = r.cells.copy()
+                t.nl = getattr(r, 'nl', False)
+                t.storage.version += 1
+                t.seen_version = t.storage.version
+                return t
+            if base == 'fill':
+                if not (is_const_scalar(a[0]) and a[0] == 0):
+                    from .ops import DomainViolation
+                    raise DomainViolation('R-LIN', 'a tensor on the data path is filled with the constant %r' % (a[0],))
+                t.cells = t.map_cells(lambda c: ())
+                t.storage.version += 1
+                t.seen_version = t.storage.version
+                return t
             if base == 'requires_grad':
                 t.requires_grad = bool(a[0]) if a else True
                 return t
@@ -175,6 +203,30 @@ def _nonlin(name):
     def m(libs, t, *a, **k):
         from . import nonlin
         return nonlin.pointwise(name, t, *a, **k)
+    return m
+
+
+def _lin_reduce(name):
+    """sum / mean along enumerated dims is a linear combination of cells; anything else is a reduction over contents"""
+    def m(libs, t, dim=None, keepdim=False, **k):
+        from . import nonlin
+        if dim is None or k or getattr(t, 'nl', False):
+            return nonlin.reduce(name, t)
+        dims = [dim] if isinstance(dim, int) else list(dim)
+        dims = sorted({d % t.ndim for d in dims}, reverse=True)
+        if any(t.dims[d][0] != 'E' for d in dims):
+            return nonlin.reduce(name, t)
+        r = t
+        for d in dims:
+            n = r.dims[d][1]
+            parts = ops.unbind(r, d)
+            acc = parts[0]
+            for q in parts[1:]:
+                acc = ops.add(acc, q)
+            if name == 'mean':
+                acc = ops.div(acc, n)
+            r = acc if not keepdim else _unsqueeze(libs, acc, d)
+        return r
     return m
 
 
@@ -244,10 +296,15 @@ _METHODS = {
     'cpu': lambda libs, t: t, 'cuda': lambda libs, t, *a: t,
     'abs': _nonlin('abs'), 'sqrt': _nonlin('sqrt'), 'pow': _nonlin('pow'), 'exp': _nonlin('exp'),
     'log': _nonlin('log'), 'sign': _nonlin('sign'), 'clamp': _nonlin('clamp'), 'relu': _nonlin('relu'),
-    'sum': _reduce('sum'), 'mean': _reduce('mean'), 'max': _reduce('max'), 'min': _reduce('min'),
+    'sum': _lin_reduce('sum'), 'mean': _lin_reduce('mean'), 'max': _reduce('max'), 'min': _reduce('min'),
     'norm': _reduce('norm'), 'std': _reduce('std'), 'var': _reduce('var'), 'any': _reduce('any'),
     'all': _reduce('all'), 'item': _reduce('item'),
     'unsqueeze': _unsqueeze, 'squeeze': _squeeze, 'expand_as': _expand_as,
+    'is_floating_point': lambda libs, t: True,
+    'is_complex': lambda libs, t: False,
+    'new_full': lambda libs, t, size, fill_value, dtype=None, **k: libs._full(size, fill_value, tag=libs._dtype_tag(dtype, t.dtype), device=t.device),
+    'tile': lambda libs, t, *reps: libs._tile(t, _shape_args(reps)),
+    'unflatten': lambda libs, t, dim, sizes: ops.reshape(t, list(t.shape[:dim % t.ndim]) + list(sizes) + list(t.shape[dim % t.ndim + 1:])),
     'square': lambda libs, t: libs.binop(operator.pow, t, 2),
     'rsqrt': lambda libs, t: libs.binop(operator.pow, t, -0.5),
     'reciprocal': lambda libs, t: libs.binop(operator.pow, t, -1),
